@@ -87,6 +87,12 @@ def budget(tier):
 
 def _table(rng, fmt, maxrows, nf=None, hdr=None):
     nf = nf or rng.randint(1, 4)
+    if hdr is not None and not hdr:
+        # a table whose header row has no fields (a csv file that starts
+        # with a blank line): rows of zero to two cells under it
+        return [[]] + [[enc(rng.choice(['x', '', 'é', '1']))
+                        for _ in range(rng.randint(0, 2))]
+                       for _ in range(rng.randint(0, maxrows))]
     hdr = hdr or FIELDS[:nf]
     n = rng.randint(0, maxrows)
     rows = [list(hdr)]
@@ -165,6 +171,8 @@ def gen_case(rng, tier, g):
     hist = []
     nops = rng.choice([1, 1, 2, 3, 4]) if can_append else rng.choice([1, 1, 2])
     hdr = FIELDS[:nf]
+    if fmt in ('csv', 'tsv') and rng.random() < 0.03:
+        hdr = []
     typed_hdr = fmt == 'pickle' and rng.random() < 0.3
     if typed_hdr:
         # field names are whatever objects the header row holds: years,
@@ -640,7 +648,7 @@ def run_case(case):
                             rd, header=hdr_arg, **ra)
                         got = [r for r in iter(view)]
                         fresh_view = view
-                        if hdr_arg:
+                        if hdr_arg is not None:
                             want = [tuple(hdr_arg)] + want
                     elif fmt == 'pickle':
                         fresh_view = e.frompickle(rd)
@@ -714,7 +722,7 @@ def run_case(case):
                         long_view.append(hdr_arg)
                     else:
                         want_old = want
-                        if long_view[1]:
+                        if long_view[1] is not None:
                             # (it keeps the header= it was given)
                             want_old = [tuple(long_view[1])] + want[1:]
                         try:
